@@ -189,9 +189,30 @@ def write_place(env, p, val):
     set_(val)
 
 
+CUR_F = [None]
+
+
+def _place_ty(p):
+    for e in reversed(p["proj"]):
+        if e["k"] == "field":
+            return e.get("ty") or ""
+        if e["k"] in ("deref", "index", "const_index", "downcast"):
+            return ""
+    f = CUR_F[0]
+    try:
+        return (f.local_ty(p["local"]) or "") if f is not None else ""
+    except Exception:
+        return ""
+
+
 def operand(env, o):
     if o["k"] in ("copy", "move"):
-        return read_place(env, o["place"])
+        v = read_place(env, o["place"])
+        if o["k"] == "copy" and type(v) is list:
+            ty = _place_ty(o["place"])
+            if ty.startswith("[") or ty.startswith("("):
+                return list(v)          # a by-value copy of an array / tuple must not alias the original
+        return v
     if o["k"] == "const":
         c = o["c"]
         v = c.get("val")
@@ -354,6 +375,15 @@ def run_fragment(f, start, env, stops=(), oracle=None, max_blocks=400, on_block=
     visited = {}
     b = start
     stops = set(stops)
+    prev_f = CUR_F[0]
+    CUR_F[0] = f
+    try:
+        return _run_fragment(f, b, env, stops, oracle, max_blocks, on_block, stuck_ok, max_visits, on_store, visited)
+    finally:
+        CUR_F[0] = prev_f
+
+
+def _run_fragment(f, b, env, stops, oracle, max_blocks, on_block, stuck_ok, max_visits, on_store, visited):
     n = 0
     while True:
         if b in stops:
